@@ -320,9 +320,15 @@ public:
   /// or dequeue() operations will be woken up.
   void close()
   {
-    if (_closed.exchange(true, std::memory_order_acq_rel))
     {
-      return; // Already closed
+      // Flip the flag under the mutex: a waiter that has evaluated its predicate
+      // but not yet blocked in wait() holds the mutex, so it cannot miss the
+      // notifications below (lost wake-up).
+      std::lock_guard<std::mutex> lock(_mutex);
+      if (_closed.exchange(true, std::memory_order_acq_rel))
+      {
+        return; // Already closed
+      }
     }
 
     // Wake all waiting threads
